@@ -220,7 +220,7 @@ UNITS["commit"] = {
 
 UNITS["verify_rel"] = {
     "prelude": PRELUDE_ALL,
-    "contracts": ["ctors.vc", "gens.vc", "transcripts.vc", "nonce.vc", "consistency.vc", "verify_safety.vc", "verify_relation.vc"],
+    "contracts": ["ctors.vc", "gens.vc", "transcripts.vc", "nonce.vc", "consistency.vc", "verify_safety.vc", "verify_transcript.vc", "verify_relation.vc"],
     "pieces": verifier_pieces(["verify"], ["verify_statements_and_generators_consistency", "a_decompressed", "a1_decompressed",
                                "b_decompressed", "li_decompressed", "ri_decompressed"]),
     "safety": {"*": ["C16"]},
